@@ -24,16 +24,17 @@
 //
 // lrange / lrr / lrack : the group LEADER path.  The real ConsumerGroup.assignTopicPartitions
 // (kafka.VerifAssignTopicPartitions: findGroupBalancer, metadata encode+decode, extractTopics,
-// readPartitions, AssignGroups) runs against a fake broker holding <partitions> as the CLUSTER:
-// the broker records the topics it is asked for and answers with the cluster's partitions of
-// exactly those topics, in cluster order.  Result:
+// readPartitions with its per-topic fallback, AssignGroups) runs against a fake broker holding
+// <partitions> as the CLUSTER.  Like a real broker seen through Conn.ReadPartitions, a request
+// naming a topic the cluster has no partition of fails as a whole with UnknownTopicOrPartition;
+// otherwise the answer is the cluster's partitions of exactly the requested topics, in cluster
+// order.  Every request is journalled.  Result:
 //
-//	"<canonical> req=<requested topics, hex joined by ',', or '-'>"   (lrack: distinct canonical
-//	results of the runs joined by "/" before " req=")
+//	"<canonical> req=<r1>;<r2>;..."   r = requested topics, hex joined by ',' ("-" = empty
+//	request; "none" after req= when no request was made); lrack: distinct canonical results of
+//	the runs joined by "/" before " req="
 //
-// followed by " calls=N" when the broker was asked N != 1 times; <canonical> is ERR:<msg> when
-// assignTopicPartitions returned an error and PANIC when it panicked.  With -unknown the
-// broker answers (nil, UnknownTopicOrPartition) when a requested topic is not in the cluster.
+// <canonical> is ERR:<msg> when assignTopicPartitions returned an error and PANIC when it panicked.
 //
 // The OCaml driver evaluates the extracted Coq model on "<id> <op> <members> <partitions>".
 package main
@@ -228,8 +229,6 @@ func runOnce(op string, g group) (res string) {
 var rackRuns = 8 // -rackruns
 const permRuns = 2
 
-var brokerUnknown = false // -unknown
-
 func isLeader(op string) bool { return op == "lrange" || op == "lrr" || op == "lrack" }
 
 // baseOp: the balancer a leader op ends up in
@@ -242,44 +241,47 @@ func baseOp(op string) string {
 
 var leaderBalancers = []kafka.GroupBalancer{kafka.RangeGroupBalancer{}, kafka.RoundRobinGroupBalancer{}, kafka.RackAffinityGroupBalancer{}}
 
-// runLeader: one run of the real leader path against the fake broker.
+// runLeader: one run of the real leader path against the fake broker.  The broker behaves
+// like a real one seen through Conn.ReadPartitions: a metadata request that names a topic
+// the cluster has no partition of fails as a whole with UnknownTopicOrPartition; otherwise
+// it returns the cluster's partitions of exactly the requested topics, in cluster order.
+// Every request is journalled.
 func runLeader(op string, g group) (res string, req string) {
-	calls := 0
-	requested := "-"
+	var journal []string
 	defer func() {
 		if e := recover(); e != nil {
 			res = "PANIC"
 		}
-		req = requested
-		if calls != 1 {
-			req += fmt.Sprintf(" calls=%d", calls)
+		req = "none"
+		if len(journal) > 0 {
+			req = strings.Join(journal, ";")
 		}
 	}()
+	exists := map[string]bool{}
+	for _, p := range g.ps {
+		exists[p.Topic] = true
+	}
 	read := func(topics ...string) ([]kafka.Partition, error) {
-		calls++
 		want := map[string]bool{}
 		l := make([]string, len(topics))
 		for i, t := range topics {
 			want[t] = true
 			l[i] = encStr(t)
 		}
-		requested = "-"
 		if len(l) > 0 {
-			requested = strings.Join(l, ",")
+			journal = append(journal, strings.Join(l, ","))
+		} else {
+			journal = append(journal, "-")
 		}
-		have := map[string]bool{}
+		for _, t := range topics {
+			if !exists[t] {
+				return nil, kafka.UnknownTopicOrPartition
+			}
+		}
 		var ps []kafka.Partition
 		for _, p := range g.ps {
 			if want[p.Topic] {
-				have[p.Topic] = true
 				ps = append(ps, p)
-			}
-		}
-		if brokerUnknown {
-			for _, t := range topics {
-				if !have[t] {
-					return nil, kafka.UnknownTopicOrPartition
-				}
 			}
 		}
 		return ps, nil
@@ -388,9 +390,51 @@ func features(fullOp string, g group) string {
 				tag("cluster-extra-topic")
 			}
 		}
+		sortedT := make([]string, 0, len(seenT))
 		for t := range seenT {
-			if !inCluster[t] {
-				tag("topic-missing-in-cluster")
+			sortedT = append(sortedT, t)
+		}
+		sort.Strings(sortedT)
+		nmiss := 0
+		for i, t := range sortedT {
+			if inCluster[t] {
+				continue
+			}
+			nmiss++
+			tag("topic-missing-in-cluster")
+			switch {
+			case len(sortedT) == 1:
+				tag("single-missing")
+			case i == 0:
+				tag("missing-first")
+			case i == len(sortedT)-1:
+				tag("missing-last")
+			default:
+				tag("missing-mid")
+			}
+		}
+		if nmiss > 0 && len(sortedT) > 1 {
+			tag("fallback") // the bulk read fails and the leader asks topic by topic
+			if nmiss == len(sortedT) {
+				tag("all-missing")
+			}
+			if !f["hetero"] {
+				tag("fallback-identical-subs")
+			}
+		}
+		if len(g.ms) > 0 {
+			first := map[string]bool{}
+			for _, t := range g.ms[0].Topics {
+				first[t] = true
+			}
+			for _, t := range sortedT {
+				if inCluster[t] && !first[t] {
+					tag("leader-lacks-existing-topic")
+					if nmiss > 0 {
+						tag("fallback-beyond-leader") // fallback must fetch a topic the first member does not name
+					}
+					break
+				}
 			}
 		}
 	}
@@ -725,9 +769,17 @@ func genGroup(r *rand.Rand, op string) group {
 	if r.Intn(10) == 0 || (leader && r.Intn(4) == 0) {
 		ptopics = append(ptopics, "orphan")
 	}
-	if leader && len(ptopics) > 1 && r.Intn(5) == 0 { // a subscribed topic the cluster does not have
-		k := r.Intn(len(ptopics))
-		ptopics = append(ptopics[:k:k], ptopics[k+1:]...)
+	if leader && r.Intn(100) < 15 { // subscribed topics the cluster does not have: any position, sometimes all
+		switch x := r.Intn(10); {
+		case x == 0:
+			ptopics = ptopics[len(topics):] // every subscribed topic is missing (an orphan may remain)
+		default:
+			k := r.Intn(len(topics))
+			ptopics = append(ptopics[:k:k], ptopics[k+1:]...)
+			if x == 1 && len(ptopics) > 1 {
+				ptopics = ptopics[1:]
+			}
+		}
 	}
 	var per [][]kafka.Partition
 	for _, t := range ptopics {
@@ -946,24 +998,30 @@ func exhaustive(scope int, r *rand.Rand) {
 	// list any duplicate-free ORDERED list over three topics (16 lists, the empty one included),
 	// so every order of first mention of the topics occurs; a few small clusters.
 	lists := orderedLists(exLeaderTopics)
-	clusters := []leaderClusterSpec{{[3]int{2, 2, 2}, true}, {[3]int{1, 0, 2}, false}}
+	// a topic with 0 partitions does not exist for the broker: the clusters have t, u, v each missing
+	// on its own, two missing, (thorough) all missing.  In the quick scope the last three clusters
+	// get one balancer each (extractTopics and the fallback do not depend on the balancer).
+	clusters := []leaderClusterSpec{{[3]int{2, 2, 2}, true}, {[3]int{1, 0, 2}, false},
+		{[3]int{0, 2, 1}, true}, {[3]int{2, 1, 0}, false}, {[3]int{0, 1, 0}, false}}
+	allOps := []string{"lrange", "lrr", "lrack"}
 	if scope >= 2 {
-		clusters = append(clusters, leaderClusterSpec{[3]int{2, 1, 0}, true}, leaderClusterSpec{[3]int{0, 2, 1}, false},
-			leaderClusterSpec{[3]int{0, 0, 0}, true}, leaderClusterSpec{[3]int{1, 1, 1}, false}, leaderClusterSpec{[3]int{2, 0, 0}, false},
-			leaderClusterSpec{[3]int{0, 1, 2}, true}, leaderClusterSpec{[3]int{1, 2, 1}, false})
+		clusters = append(clusters, leaderClusterSpec{[3]int{0, 0, 0}, true}, leaderClusterSpec{[3]int{1, 1, 1}, false},
+			leaderClusterSpec{[3]int{2, 0, 0}, false}, leaderClusterSpec{[3]int{0, 1, 2}, true}, leaderClusterSpec{[3]int{1, 2, 1}, false})
 	}
 	for M := 1; M <= 3; M++ {
 		for sub := 0; sub < pow(len(lists), M); sub++ {
 			sd := digits(sub, len(lists), M)
-			for _, cl := range clusters {
+			for ci, cl := range clusters {
 				ms := make([]kafka.GroupMember, M)
 				for i := range ms {
 					ms[i] = kafka.GroupMember{ID: exRackIDs[i], Topics: lists[sd[i]], UserData: []byte(exRacks[(i+1)%2])}
 				}
 				g := group{ms, leaderCluster(cl)}
-				emitCase("lrange", g, r, "exh")
-				emitCase("lrr", g, r, "exh")
-				emitCase("lrack", g, r, "exh")
+				for oi, op := range allOps {
+					if scope >= 2 || ci < 2 || oi == ci%3 {
+						emitCase(op, g, r, "exh")
+					}
+				}
 			}
 		}
 	}
@@ -1017,7 +1075,7 @@ func main() {
 	count := flag.Int("n", 500, "number of random groups per balancer")
 	exh := flag.Int("exhaustive", 0, "small-scope enumeration: 0 none, 1 quick scope, 2 thorough scope")
 	flag.IntVar(&rackRuns, "rackruns", 8, "how often the rack balancer is run on each case (its result depends on map iteration order)")
-	flag.BoolVar(&brokerUnknown, "unknown", false, "leader ops: the fake broker answers UnknownTopicOrPartition (and no partitions) when a requested topic is not in the cluster")
+	flag.Bool("unknown", true, "no-op, kept for old command lines: the fake broker always answers UnknownTopicOrPartition for a request naming a topic the cluster lacks")
 	one := flag.String("case", "", "run the single case '<op> <members> <partitions>' and print its line")
 	flag.Parse()
 	r := rand.New(rand.NewSource(*seed))
